@@ -10,3 +10,7 @@ Fixpoint ad_set {B : Type} (d : list (Z * B)) (k : Z) (v : B) : list (Z * B) :=
 (* d.pop(k, None) *)
 Definition ad_remove {B : Type} (d : list (Z * B)) (k : Z) : list (Z * B) :=
   filter (fun e => negb (Z.eqb (fst e) k)) d.
+
+(* `while cond: body` with explicit fuel: None when the fuel runs out *)
+Fixpoint fuel_loop {S : Type} (cond : S -> bool) (body : S -> S) (fuel : nat) (st : S) : option S :=
+  if cond st then match fuel with 0%nat => None | S f => fuel_loop cond body f (body st) end else Some st.
